@@ -172,9 +172,14 @@ pub enum PerturbKind {
 
 #[derive(Clone, Copy, Debug, Serialize, Deserialize, PartialEq, Eq, Hash)]
 pub enum EntryKind {
+    /// every piece of information given by override, `T = ()`
     Override,
     CopyDatum,
     Dynamic,
+    /// `add_datum::<T>` / `add_datum_allow_uninit::<T>`: everything from the resolver
+    Typed,
+    /// `add_datum_override::<T>` overriding the type name only (the documented use), the flag when needed
+    NameOnly,
 }
 
 /// Extensions of the plain definition generator used by the compiler probes.
@@ -329,7 +334,15 @@ pub fn build_ext(h: &RHistory, ext: &Ext) -> Built {
                 counter += 1;
                 let mut rec_info = info.clone();
                 let mut rec_uninit = *uninit && is_copy;
-                let mut entry = EntryKind::Override;
+                // entry point of the addition: a pure function of the history
+                let name_is_hosts = idx < MARKER_BASE && idx != 40 && idx != 44;
+                let mut entry = match (ordinal + h.fragsel as usize + h.reqs.len()) % 7 {
+                    0 | 1 if name_is_hosts && !info.name.starts_with("fnv_like") => EntryKind::Typed,
+                    2 if idx < MARKER_BASE => EntryKind::NameOnly,
+                    3 => EntryKind::CopyDatum,
+                    4 => EntryKind::Dynamic,
+                    _ => EntryKind::Override,
+                };
                 let mut is_perturbed = false;
                 if let Some((ord, kind, e)) = ext.perturb {
                     if ord == ordinal && perturbation_applies(idx, &info, kind) {
@@ -362,6 +375,23 @@ pub fn build_ext(h: &RHistory, ext: &Ext) -> Built {
                         DatumId::from(0usize),
                         field_name,
                         NativeDatumDetails::new(0, rec_info.clone(), rec_uninit),
+                    )),
+                    EntryKind::Typed => {
+                        if rec_uninit {
+                            vtypes::with_copy_menu_type!(idx, T => b.add_datum_allow_uninit::<T, _>(field_name.clone())).expect("Copy type")
+                        } else {
+                            with_menu_type!(idx, T => b.add_datum::<T, _>(field_name))
+                        }
+                    }
+                    EntryKind::NameOnly => with_menu_type!(idx, T => b.add_datum_override::<T, _>(
+                        field_name,
+                        DatumDefinitionOverride {
+                            type_name: Some(rec_info.name.clone()),
+                            // only what differs from the resolver's answer is overridden
+                            size: if rec_info.size != info.size { Some(rec_info.size) } else { None },
+                            align: if rec_info.align != info.align { Some(rec_info.align) } else { None },
+                            allow_uninit: if rec_uninit { Some(true) } else { None },
+                        },
                     )),
                     EntryKind::Dynamic => {
                         let key = format!("probe{}", ordinal);
